@@ -16,15 +16,17 @@ Variable fb : flat.
 Hypothesis HF1 : in_f1 fb = true.
 Hypothesis HT : 0 < T fb.
 
-Definition GN : nat := T fb * vpt fb.
-Definition GZ : Z := zn GN.
+(** the number of trial variables (grid variables, then those of the complex factors) *)
+Definition GZ : Z := zn (VN fb).
 
 Definition bit (s : asg) (t f l : nat) : bool := s (zn (gvar fb t f l)).
-Definition col (s : asg) (f l a b : nat) : list bool := map (fun t => bit s t f l) (seq a (b - a)).
+(** the column of a level over the trials of [a, b) in which the factor has a level *)
+Definition col (s : asg) (f l a b : nat) : list bool := map (fun t => bit s t f l) (trials_of fb f a b).
 
 (** * Predicates on the grid, one per kind *)
 Definition Pcons (s : asg) : Prop :=
-  forall t f, t < T fb -> isact fb f = true -> ntrue (map (bit s t f) (seq 0 (nlevels fb f))) = 1.
+  forall t f, t < T fb -> isact fb f = true -> lappl fb f t = true ->
+    ntrue (map (bit s t f) (seq 0 (nlevels fb f))) = 1.
 
 Definition Patmost (k f l : nat) (wb : option geometry) (s : asg) : Prop :=
   Forall (fun r => forall w, In w (windows (S k) (col s f l (fst r) (snd r))) -> ntrue w < S k) (windows_of fb wb).
@@ -41,18 +43,17 @@ Definition Ppin (i : Z) (f l : nat) (wb : option geometry) (s : asg) : Prop :=
   pins i f wb <> [] /\ Forall (fun p => bit s p f l = true) (pins i f wb).
 
 (** * Variables of the grid are in 1..G *)
-Lemma gvar_pos t f l : 0 < gvar fb t f l.
-Proof. unfold gvar. lia. Qed.
-
-Lemma gvar_le t f l : t < T fb -> isact fb f = true -> l < nlevels fb f -> (zn (gvar fb t f l) <= GZ)%Z.
-Proof. intros A B C. pose proof (gvar_range fb HF1 t f l A B C). unfold GZ, GN, zn. lia. Qed.
+Lemma gvar_le t f l : t < T fb -> isact fb f = true -> l < nlevels fb f -> lappl fb f t = true ->
+  (zn (gvar fb t f l) <= GZ)%Z.
+Proof. intros A B C D. pose proof (gvar_range fb HF1 t f l A B C D). unfold GZ, zn. lia. Qed.
 
 Lemma range_vars_ok f l (r : nat * nat) fresh :
   isact fb f = true -> l < nlevels fb f -> snd r <= T fb -> (GZ < fresh)%Z ->
-  Forall (fun v => 0 < v /\ (zn v <= fresh - 1)%Z) (map (fun t => gvar fb t f l) (seq (fst r) (snd r - fst r))).
+  Forall (fun v => 0 < v /\ (zn v <= fresh - 1)%Z) (map (fun t => gvar fb t f l) (trials_of fb f (fst r) (snd r))).
 Proof.
   intros A B C D. apply Forall_forall. intros v Hv. apply in_map_iff in Hv. destruct Hv as (t & <- & Ht).
-  apply in_seq in Ht. split; [apply gvar_pos|]. pose proof (gvar_le t f l ltac:(lia) A B). lia.
+  apply in_trials_of in Ht. destruct Ht as [Ht Ha]. split; [apply gvar_pos|].
+  pose proof (gvar_le t f l ltac:(lia) A B Ha). lia.
 Qed.
 
 Lemma Forall_sub {A} (P : A -> Prop) (l w : list A) n :
@@ -69,7 +70,7 @@ Lemma geom_ok_some wb : geom_ok fb wb = true -> exists rs, map_block_trial_range
 Proof. unfold geom_ok. destruct (map_block_trial_ranges fb wb) as [rs|]; [eauto|discriminate]. Qed.
 
 Lemma col_vars s f l a b :
-  map (fun v => s (zn v)) (map (fun t => gvar fb t f l) (seq a (b - a))) = col s f l a b.
+  map (fun v => s (zn v)) (map (fun t => gvar fb t f l) (trials_of fb f a b)) = col s f l a b.
 Proof. unfold col, bit. now rewrite map_map. Qed.
 
 (** * AtMostKInARow *)
@@ -79,9 +80,9 @@ Lemma step_atmost k f l wb :
   exists ext, DefinesA (fresh - 1) (ct_fresh ct - 1) (ct_clauses ct) (ct_requests ct) ext (Patmost k f l wb).
 Proof.
   intros Hc fresh ct Hfr E. cbn [constraint_f1] in Hc. rewrite !andb_true_iff in Hc.
-  destruct Hc as [[Hf Hl] Hg]. apply Nat.ltb_lt in Hl. destruct (geom_ok_some wb Hg) as [rs Ers].
+  destruct Hc as [[[Hf Hl] Hg] _]. apply Nat.ltb_lt in Hl. destruct (geom_ok_some wb Hg) as [rs Ers].
   cbn [apply_constraint] in E. unfold apply_atmost, sublistss in E.
-  rewrite (f1_var_lists fb HF1 f l wb rs Hf Hl Ers) in E. cbn [cbind] in E. inversion E. subst ct. clear E.
+  rewrite (f1_var_lists fb HF1 f l wb rs HT Hf Hl Ers) in E. cbn [cbind] in E. inversion E. subst ct. clear E.
   cbn [ct_fresh ct_clauses ct_requests]. exists (fun s => s).
   pose proof (f1_ranges_bound fb wb rs Ers) as Hb.
   assert (HGZ : (0 <= GZ)%Z) by (unfold GZ, zn; lia).
@@ -97,7 +98,7 @@ Proof.
   - intros s. unfold Patmost. rewrite (ranges_of wb rs Ers). rewrite Forall_flat_map, Forall_map, Forall_map.
     apply Forall_iff_ext. intros r Hr. pose proof (proj1 (Forall_forall _ _) Hb r Hr) as [_ Hr2].
     rewrite Forall_map, Nat.add_1_r, <- col_vars.
-    set (vl := map (fun t => gvar fb t f l) (seq (fst r) (snd r - fst r))).
+    set (vl := map (fun t => gvar fb t f l) (trials_of fb f (fst r) (snd r))).
     rewrite (windows_map nat bool (fun v => s (zn v)) (S k) vl).
     assert (Hpos : forall sl, In sl (windows (S k) vl) -> Forall (fun v => 0 < v) sl).
     { intros sl Hsl. eapply Forall_impl; [|eapply Forall_sub; [|exact Hsl]; apply (range_vars_ok f l r (GZ + 1)); try assumption; lia].
@@ -116,10 +117,10 @@ Lemma step_exactlyk k f l wb :
   exists ext, DefinesA (fresh - 1) (ct_fresh ct - 1) (ct_clauses ct) (ct_requests ct) ext (Pexactlyk k f l wb).
 Proof.
   intros Hc fresh ct Hfr E. cbn [constraint_f1] in Hc. rewrite !andb_true_iff in Hc.
-  destruct Hc as [[[Hf Hl] Hg] Hne]. apply Nat.ltb_lt in Hl. destruct (geom_ok_some wb Hg) as [rs Ers].
+  destruct Hc as [[[[Hf Hl] Hg] _] Hne]. apply Nat.ltb_lt in Hl. destruct (geom_ok_some wb Hg) as [rs Ers].
   rewrite (ranges_of wb rs Ers) in Hne. rewrite forallb_forall in Hne.
   cbn [apply_constraint] in E. unfold apply_exactlyk in E.
-  rewrite (f1_var_lists fb HF1 f l wb rs Hf Hl Ers) in E. cbn [cbind] in E. inversion E. subst ct. clear E.
+  rewrite (f1_var_lists fb HF1 f l wb rs HT Hf Hl Ers) in E. cbn [cbind] in E. inversion E. subst ct. clear E.
   cbn [ct_fresh ct_clauses ct_requests]. exists (fun s => s).
   pose proof (f1_ranges_bound fb wb rs Ers) as Hb.
   assert (HGZ : (0 <= GZ)%Z) by (unfold GZ, zn; lia).
@@ -127,8 +128,7 @@ Proof.
   - apply definesA_requests; [lia|]. rewrite !Forall_map.
     apply Forall_forall. intros r Hr. pose proof (proj1 (Forall_forall _ _) Hb r Hr) as [_ Hr2].
     apply req_ok_zs; [|now apply range_vars_ok].
-    specialize (Hne r Hr). apply Nat.ltb_lt in Hne.
-    replace (snd r - fst r) with (S (snd r - fst r - 1)) by lia. discriminate.
+    specialize (Hne r Hr). destruct (trials_of fb f (fst r) (snd r)); [discriminate Hne|discriminate].
   - intros s. unfold Pexactlyk. rewrite (ranges_of wb rs Ers), !Forall_map.
     apply Forall_iff_ext. intros r Hr. pose proof (proj1 (Forall_forall _ _) Hb r Hr) as [_ Hr2].
     rewrite <- col_vars. apply req_rel_EQ.
@@ -160,18 +160,17 @@ Lemma step_exclude f l :
   exists ext, DefinesA (fresh - 1) (ct_fresh ct - 1) (ct_clauses ct) (ct_requests ct) ext (Pexclude f l).
 Proof.
   intros Hc fresh ct Hfr E. cbn [constraint_f1] in Hc. rewrite !andb_true_iff in Hc.
-  destruct Hc as [Hf Hl]. apply Nat.ltb_lt in Hl.
+  destruct Hc as [[Hf Hl] _]. apply Nat.ltb_lt in Hl.
   cbn [apply_constraint] in E. unfold apply_exclude in E.
-  rewrite (f1_var_lists_none fb HF1 f l Hf Hl) in E. cbn [cbind] in E.
-  replace (0 <? T fb) with true in E by (symmetry; now apply Nat.ltb_lt).
+  rewrite (f1_var_lists_none fb HF1 f l HT Hf Hl) in E. cbn [cbind] in E.
   inversion E. subst ct. clear E. cbn [ct_fresh ct_clauses ct_requests flat_map]. rewrite app_nil_r.
   exists (fun s => s).
   assert (HGZ : (0 <= GZ)%Z) by (unfold GZ, zn; lia).
-  assert (Hv : Forall (fun v => 0 < v /\ (zn v <= fresh - 1)%Z) (map (fun t => gvar fb t f l) (seq 0 (T fb)))).
-  { pose proof (range_vars_ok f l (0, T fb) fresh Hf Hl (le_n _) Hfr) as H. cbn [fst snd] in H. now rewrite Nat.sub_0_r in H. }
+  assert (Hv : Forall (fun v => 0 < v /\ (zn v <= fresh - 1)%Z) (map (fun t => gvar fb t f l) (trials_of fb f 0 (T fb)))).
+  { exact (range_vars_ok f l (0, T fb) fresh Hf Hl (le_n _) Hfr). }
   eapply definesA_conseq.
   - apply definesA_clauses; [lia|]. now apply vars_upto_neg_units.
-  - intros s. unfold Pexclude, col. rewrite Nat.sub_0_r, sat_neg_units.
+  - intros s. unfold Pexclude, col. rewrite sat_neg_units.
     + now rewrite map_map.
     + eapply Forall_impl; [|exact Hv]. intros a [Ha _]. exact Ha.
 Qed.
@@ -203,12 +202,13 @@ Lemma step_pin i f l wb :
   exists ext, DefinesA (fresh - 1) (ct_fresh ct - 1) (ct_clauses ct) (ct_requests ct) ext (Ppin i f l wb).
 Proof.
   intros Hc fresh ct Hfr E. cbn [constraint_f1] in Hc. rewrite !andb_true_iff in Hc.
-  destruct Hc as [[[Hf Hl] Hg] Hs]. apply Nat.ltb_lt in Hl. apply Nat.eqb_eq in Hs.
+  destruct Hc as [[[[Hf Hcx] Hl] Hg] Hs]. apply Nat.ltb_lt in Hl. apply Nat.eqb_eq in Hs. apply negb_true_iff in Hcx.
+  assert (Hap : forall t, lappl fb f t = true) by (intros t; now apply (lappl_simple fb HF1)).
   destruct (geom_ok_some wb Hg) as [rs Ers].
   pose proof (pins_bound i f wb rs Hs Ers) as Hpb.
   assert (HGZ : (0 <= GZ)%Z) by (unfold GZ, zn; lia).
   assert (HG1 : (1 <= GZ)%Z).
-  { pose proof (gvar_range fb HF1 0 f l HT Hf Hl). unfold GZ, GN, zn. lia. }
+  { pose proof (gvar_range fb HF1 0 f l HT Hf Hl (Hap 0)). unfold GZ, zn. lia. }
   cbn [apply_constraint] in E. unfold apply_pin in E. unfold Ppin, pins in *.
   destruct (get_trial_numbers fb f i wb) as [ps|] eqn:Ep.
   2:{ rewrite (f1_trial_numbers fb f i wb rs Hs Ers) in Ep. discriminate. }
@@ -223,8 +223,9 @@ Proof.
     assert (Evars : cmapM (fun t => if negb (applies_at fb f (t + 1)) then COk [[1%Z]; [(-1)%Z]]
                                     else v <~ get_variable fb (t + 1) f l ;; COk [[zn v]]) pl
                     = COk (map (fun t => [[zn (gvar fb t f l)]]) pl)).
-    { clear -HF1 Hf Hl. induction pl as [|a pl IH]; [reflexivity|]. cbn [cmapM map].
-      rewrite (f1_applies fb HF1 f (a + 1) Hf). cbn [negb].
+    { clear -HF1 Hf Hl Hap. induction pl as [|a pl IH]; [reflexivity|]. cbn [cmapM map].
+      rewrite Nat.add_1_r. change (applies_at fb f (S a)) with (lappl fb f a). rewrite (Hap a). cbn [negb].
+      rewrite <- (Nat.add_1_r a).
       rewrite Nat.add_1_r, (f1_get_variable fb HF1 f l a Hf Hl). cbn [cbind].
       rewrite IH. reflexivity. }
     rewrite Evars in E. cbn [cbind] in E.
@@ -234,7 +235,7 @@ Proof.
     cbn [ct_fresh ct_clauses ct_requests]. exists (fun s => s).
     assert (Hv : Forall (fun v => 0 < v /\ (zn v <= fresh - 1)%Z) (map (fun t => gvar fb t f l) pl)).
     { apply Forall_map. eapply Forall_impl; [|exact Hpb]. intros t Ht. split; [apply gvar_pos|].
-      pose proof (gvar_le t f l Ht Hf Hl). lia. }
+      pose proof (gvar_le t f l Ht Hf Hl (Hap t)). lia. }
     eapply definesA_conseq.
     + apply definesA_clauses; [lia|]. rewrite map_map.
       intros c x Hc Hx. apply in_map_iff in Hc. destruct Hc as (t & <- & Ht). destruct Hx as [<-|[]].
@@ -247,6 +248,12 @@ Proof.
 Qed.
 
 (** * Consistency *)
+Lemma sact_split f : sact fb f = true <-> isact fb f = true /\ is_complex fb f = false.
+Proof. unfold sact. rewrite andb_true_iff, negb_true_iff. tauto. Qed.
+
+Lemma cact_split f : cact fb f = true <-> isact fb f = true /\ is_complex fb f = true.
+Proof. unfold cact. rewrite andb_true_iff. tauto. Qed.
+
 Lemma step_consistency :
   forall fresh ct, (GZ < fresh)%Z -> apply_constraint fb FConsistency fresh = COk ct ->
   exists ext, DefinesA (fresh - 1) (ct_fresh ct - 1) (ct_clauses ct) (ct_requests ct) ext Pcons.
@@ -254,28 +261,43 @@ Proof.
   intros fresh ct Hfr E. cbn [apply_constraint] in E. rewrite (f1_consistency fb HF1 fresh) in E.
   inversion E. subst ct. clear E. cbn [ct_fresh ct_clauses ct_requests]. exists (fun s => s).
   assert (HGZ : (0 <= GZ)%Z) by (unfold GZ, zn; lia).
-  assert (Hrow : forall t f, t < T fb -> isact fb f = true ->
+  assert (Hrow : forall t f, t < T fb -> isact fb f = true -> lappl fb f t = true ->
             Forall (fun v => 0 < v /\ (zn v <= fresh - 1)%Z) (map (fun l => gvar fb t f l) (seq 0 (nlevels fb f)))).
-  { intros t f Ht Hf. apply Forall_map. apply Forall_forall. intros l Hl. apply in_seq in Hl.
-    split; [apply gvar_pos|]. pose proof (gvar_le t f l Ht Hf ltac:(lia)). lia. }
+  { intros t f Ht Hf Ha. apply Forall_map. apply Forall_forall. intros l Hl. apply in_seq in Hl.
+    split; [apply gvar_pos|]. pose proof (gvar_le t f l Ht Hf ltac:(lia) Ha). lia. }
   assert (Hzs : forall t f, map (fun l => Z.of_nat (gvar fb t f l)) (seq 0 (nlevels fb f))
                             = zs (map (fun l => gvar fb t f l) (seq 0 (nlevels fb f)))).
   { intros t f. unfold zs. now rewrite map_map. }
+  (* every request of the list is the row of an act factor in a trial where it has a level, and conversely *)
+  assert (Hin : forall r, In r (cons_all fb) <->
+            exists t f, t < T fb /\ isact fb f = true /\ lappl fb f t = true /\ r = cons_row fb t f).
+  { intros r. unfold cons_all. rewrite in_app_iff, !in_flat_map. split.
+    - intros [(t & Ht & Hr)|(f & Hf & Hr)].
+      + apply in_seq in Ht. apply in_map_iff in Hr. destruct Hr as (f & <- & Hf). apply filter_In in Hf.
+        destruct Hf as [_ Hf]. apply sact_split in Hf. destruct Hf as [Hf Hc].
+        exists t, f. repeat split; [lia|exact Hf|now apply (lappl_simple fb HF1)].
+      + apply filter_In in Hf. destruct Hf as [_ Hf]. apply cact_split in Hf. destruct Hf as [Hf Hc].
+        apply in_map_iff in Hr. destruct Hr as (t & <- & Ht). apply in_trials_of in Ht. destruct Ht as [Ht Ha].
+        exists t, f. repeat split; [lia|exact Hf|exact Ha].
+    - intros (t & f & Ht & Hf & Ha & ->). pose proof (f1_act_lt fb HF1 f Hf) as Hlt.
+      destruct (is_complex fb f) eqn:Hc.
+      + right. exists f. split; [apply filter_In; split; [apply in_seq; lia|now apply cact_split]|].
+        apply (in_map (fun t => cons_row fb t f)). apply in_trials_of. split; [lia|exact Ha].
+      + left. exists t. split; [apply in_seq; lia|]. apply in_map. apply filter_In. split; [apply in_seq; lia|now apply sact_split]. }
   eapply definesA_conseq.
-  - apply definesA_requests; [lia|]. apply Forall_flat_map. apply Forall_forall. intros t Ht. apply in_seq in Ht.
-    apply Forall_map. apply Forall_forall. intros f Hf. apply (proj2 (isact_In fb f)) in Hf. rewrite Hzs.
-    change 1%Z with (zn 1). apply req_ok_zs; [|apply Hrow; [lia|exact Hf]].
+  - apply definesA_requests; [lia|]. apply Forall_forall. intros r Hr. apply Hin in Hr.
+    destruct Hr as (t & f & Ht & Hf & Ha & ->). unfold cons_row. rewrite Hzs.
+    change 1%Z with (zn 1). apply req_ok_zs; [|now apply Hrow].
     pose proof (f1_nlevels_pos fb HF1 f (f1_act_lt fb HF1 f Hf)). destruct (nlevels fb f); [lia|discriminate].
-  - intros s. unfold Pcons. rewrite Forall_flat_map. split.
-    + intros H t f Ht Hf. pose proof (proj1 (Forall_forall _ _) H t ltac:(apply in_seq; lia)) as H1.
-      rewrite Forall_map in H1. pose proof (proj1 (Forall_forall _ _) H1 f (proj1 (isact_In fb f) Hf)) as H2.
-      cbv beta in H2. rewrite Hzs in H2. change 1%Z with (zn 1) in H2. apply req_rel_EQ in H2.
-      * rewrite map_map in H2. exact H2.
-      * eapply Forall_impl; [|apply (Hrow t f Ht Hf)]. intros a [Ha _]. exact Ha.
-    + intros H. apply Forall_forall. intros t Ht. apply in_seq in Ht. apply Forall_map.
-      apply Forall_forall. intros f Hf. apply (proj2 (isact_In fb f)) in Hf. rewrite Hzs. change 1%Z with (zn 1). apply req_rel_EQ.
-      * eapply Forall_impl; [|apply (Hrow t f); [lia|exact Hf]]. intros a [Ha _]. exact Ha.
-      * rewrite map_map. apply H; [lia|exact Hf].
+  - intros s. unfold Pcons. rewrite Forall_forall. split.
+    + intros H t f Ht Hf Ha. specialize (H (cons_row fb t f) (proj2 (Hin _) (ex_intro _ t (ex_intro _ f (conj Ht (conj Hf (conj Ha eq_refl))))))).
+      unfold cons_row in H. rewrite Hzs in H. change 1%Z with (zn 1) in H. apply req_rel_EQ in H.
+      * rewrite map_map in H. exact H.
+      * eapply Forall_impl; [|apply (Hrow t f Ht Hf Ha)]. intros a [Ha' _]. exact Ha'.
+    + intros H r Hr. apply Hin in Hr. destruct Hr as (t & f & Ht & Hf & Ha & ->).
+      unfold cons_row. rewrite Hzs. change 1%Z with (zn 1). apply req_rel_EQ.
+      * eapply Forall_impl; [|apply (Hrow t f Ht Hf Ha)]. intros a [Ha' _]. exact Ha'.
+      * rewrite map_map. now apply H.
 Qed.
 
 End F1Kinds.
